@@ -215,7 +215,56 @@ def ob_getdistance(env):
     env.claim_eq("distance_is_linear_interpolation_between_the_two_bracketing_nodes", got, want)
 
 
+def ob_reverse_and_totals(env):
+    """reversing a contour (regions gridded against their point order, e.g. upper legs) keeps arc lengths: FineContour.reverse maps distance d to
+    D_last - d on the reversed points and swaps the designated start/end points; totalDistance is the arc between the designated points;
+    PsiContour.reverse swaps the designated points likewise and drops its cached distances"""
+    sym = env.mode == "sym"
+    n = 5
+    start = int(env.int("startInd", lo=0, hi=n - 2))
+    end = int(env.int("endInd", lo=start + 1, hi=n - 1))
+    ds = [env.real("dist%d" % k, lo=0, hi=20) for k in range(n)]
+    fc = eqm.FineContour.__new__(eqm.FineContour)
+    fc.distance = numpy.array(ds, dtype=object if sym else float)
+    fc.positions = numpy.array([[float(k), 10.0 + k] for k in range(n)])
+    fc.startInd, fc.endInd = start, end
+    total0 = fc.totalDistance()
+    env.claim_eq("fine_total_distance=arc_between_designated_points", total0, ds[end] - ds[start])
+    with sym_numpy(env, eqm):
+        fc.reverse()
+    env.witness("reversed")
+    env.claim("fine_positions_reversed", [float(x) for x in fc.positions[:, 0]] == [float(n - 1 - k) for k in range(n)])
+    env.claim("fine_start_designates_the_old_end_point", float(fc.positions[fc.startInd, 0]) == float(end) and float(fc.positions[fc.endInd, 0]) == float(start))
+    for k in range(n):
+        env.claim_eq("fine_distance_measured_from_the_new_first_point", fc.distance[k], ds[n - 1] - ds[n - 1 - k])
+    env.claim_eq("fine_total_distance_unchanged_by_reversal", fc.totalDistance(), total0)
+    # PsiContour.reverse
+    pts = ["p%d" % k for k in range(n)]
+    c = eqm.PsiContour.__new__(eqm.PsiContour)
+    c.points = list(pts)
+    c._startInd, c._endInd = start, end
+    c._distance, c._extend_lower, c._extend_upper = "cached", 0, 0
+    marker = types.SimpleNamespace(n=0)
+    marker.reverse = lambda: setattr(marker, "n", marker.n + 1)
+    c._fine_contour = marker
+    c._reset_cached = lambda: None      # (the index setters would drop the fine contour; its own reversal is checked through the marker)
+    c.reverse()
+    env.claim("contour_points_reversed", c.points == pts[::-1])
+    env.claim("contour_start_designates_the_old_end_point", c.points[c.startInd] == pts[end] and c.points[c.endInd] == pts[start])
+    env.claim("contour_cached_distance_dropped", c._distance is None)
+    # distances along a contour: PsiContour.totalDistance is the arc between its designated points
+    c2 = eqm.PsiContour.__new__(eqm.PsiContour)
+    c2.points, c2._startInd, c2._endInd = list(pts), start, end
+    c2._distance = list(ds)
+    env.claim_eq("contour_total_distance=arc_between_designated_points", c2.totalDistance(psi=None), ds[end] - ds[start])
+
+
 ENC = ["hypnotoad.core.mesh:MeshRegion.calcHy"]
+OBLIGATIONS.append(Ob("reverse_and_total_distance", ob_reverse_and_totals, tier="quick", family="FineContour",
+                      encodes=["hypnotoad.core.equilibrium:FineContour.reverse", "hypnotoad.core.equilibrium:FineContour.totalDistance",
+                               "hypnotoad.core.equilibrium:PsiContour.reverse", "hypnotoad.core.equilibrium:PsiContour.totalDistance"],
+                      desc="reversal keeps arc lengths and swaps the designated end points; total distance is the arc between the designated points",
+                      bounds="5 points, every startInd < endInd, distances symbolic"))
 for _p in (False, True):
     OBLIGATIONS.append(Ob("calcHy_%s_chain" % ("periodic" if _p else "open"), _mk_hy(_p), tier="quick", family="calcHy", encodes=ENC,
                           desc="hy*dy = arc between y-faces (centre) / adjacent centres (ylow), across joins, 2*half-cell at boundaries; hy>0",
